@@ -47,7 +47,7 @@ Record fdef := mkF { f_name: string; f_alias: option string; f_ty: ty }.
    c_parent: the dataclass base (single inheritance) - only used for the MRO walk;
    c_by_alias: Config.serialize_by_alias (None = not set);
    c_omit_none: Config.omit_none (None = not set);
-   c_omit_default: Config.omit_default (None = not set); c_defaults: field name -> default value (literal defaults);
+   c_omit_default: Config.omit_default (None = not set); c_defaults: field name -> default value (literals, bound constants, default_factory() results);
    c_sort_keys: Config.sort_keys (to_dict emits the fields sorted by field NAME);
    c_forbid_extra: Config.forbid_extra_keys (from_dict raises ExtraKeysError for a key that is no alias-or-name);
    c_allow_by_name: Config.allow_deserialization_not_by_alias (an aliased field is also read under its name);
@@ -132,14 +132,44 @@ Definition pack_order (d: cdef) : list fdef := if c_sort_keys d then sort_fields
 Definition is_none (v: val) : bool := match v with VNone => true | _ => false end.
 Definition is_opt (t: ty) : bool := match t with TOpt _ => true | _ => false end.
 
-(* `value != <default literal>` for the literal defaults of the grammar (None, int, str) *)
-Definition leaf_eqb (a b: val) : bool :=
+Section ListEq.
+  Context {A: Type} (eq: A -> A -> bool).
+  Fixpoint list_eqb (l1 l2: list A) : bool :=
+    match l1, l2 with
+    | [], [] => true
+    | x :: r1, y :: r2 => eq x y && list_eqb r1 r2
+    | _, _ => false end.
+End ListEq.
+
+Fixpoint val_eqb (a b: val) {struct a} : bool :=
   match a, b with
   | VNone, VNone => true
   | VInt x, VInt y => Z.eqb x y
   | VStr x, VStr y => String.eqb x y
+  | VDate x, VDate y => String.eqb x y
+  | VList x, VList y => list_eqb val_eqb x y
+  | VTuple x, VTuple y => list_eqb val_eqb x y
+  | VDict x, VDict y =>
+      (fix deq (l1 l2: list (string * val)) : bool :=
+         match l1, l2 with
+         | [], [] => true
+         | (k1, v1) :: r1, (k2, v2) :: r2 => String.eqb k1 k2 && val_eqb v1 v2 && deq r1 r2
+         | _, _ => false end) x y
+  | VObj c x, VObj c' y =>
+      String.eqb c c' &&
+      (fix oeq (l1 l2: list (string * val)) : bool :=
+         match l1, l2 with
+         | [], [] => true
+         | (k1, v1) :: r1, (k2, v2) :: r2 => String.eqb k1 k2 && val_eqb v1 v2 && oeq r1 r2
+         | _, _ => false end) x y
   | _, _ => false
   end.
+
+
+(* `value != <default>`: the generated code compares the attribute with the default OBJECT (a literal, a bound constant
+   such as a date, or the result of default_factory()) through Python ==, structural on the values of the grammar
+   (dict defaults are compared key order and all: the generators only use the empty dict) *)
+Definition leaf_eqb (a b: val) : bool := val_eqb a b.
 
 Fixpoint assoc {A} (l: list (string * A)) (k: string) : option A :=
   match l with
@@ -637,39 +667,6 @@ End Unpack.
 
 (* ------------------------------------------------------------------ *)
 (* structural equality for the correspondence                           *)
-Section ListEq.
-  Context {A: Type} (eq: A -> A -> bool).
-  Fixpoint list_eqb (l1 l2: list A) : bool :=
-    match l1, l2 with
-    | [], [] => true
-    | x :: r1, y :: r2 => eq x y && list_eqb r1 r2
-    | _, _ => false end.
-End ListEq.
-
-Fixpoint val_eqb (a b: val) {struct a} : bool :=
-  match a, b with
-  | VNone, VNone => true
-  | VInt x, VInt y => Z.eqb x y
-  | VStr x, VStr y => String.eqb x y
-  | VDate x, VDate y => String.eqb x y
-  | VList x, VList y => list_eqb val_eqb x y
-  | VTuple x, VTuple y => list_eqb val_eqb x y
-  | VDict x, VDict y =>
-      (fix deq (l1 l2: list (string * val)) : bool :=
-         match l1, l2 with
-         | [], [] => true
-         | (k1, v1) :: r1, (k2, v2) :: r2 => String.eqb k1 k2 && val_eqb v1 v2 && deq r1 r2
-         | _, _ => false end) x y
-  | VObj c x, VObj c' y =>
-      String.eqb c c' &&
-      (fix oeq (l1 l2: list (string * val)) : bool :=
-         match l1, l2 with
-         | [], [] => true
-         | (k1, v1) :: r1, (k2, v2) :: r2 => String.eqb k1 k2 && val_eqb v1 v2 && oeq r1 r2
-         | _, _ => false end) x y
-  | _, _ => false
-  end.
-
 Definition err_eqb (a b: err) : bool :=
   match a, b with
   | XRaw, XRaw | XUnionI, XUnionI | XUnionV, XUnionV | XUnmodelled, XUnmodelled => true
